@@ -345,8 +345,12 @@ class P_xcfg(StructureParser):
         # build a p_auxiliaries list of (aux_name,atom_expression) tuples
         # if stru came from xcfg file, it would store original auxiliaries in
         # xcfg dictionary
+        # Skip the stored occupancy and displacement auxiliaries, because
+        # they are written below according to the current atom values.
         try:
-            p_auxiliaries = [(aux, "a." + aux) for aux in stru.xcfg["auxiliaries"]]
+            p_auxiliaries = [
+                (aux, "a." + aux) for aux in stru.xcfg["auxiliaries"] if not _is_derived_auxiliary(aux)
+            ]
         except AttributeError:
             p_auxiliaries = []
         # add occupancy if any atom has nonunit occupancy
@@ -424,6 +428,15 @@ def getParser():
 
 
 # Local Helpers --------------------------------------------------------------
+
+
+def _is_derived_auxiliary(prop):
+    """Return ``True`` for auxiliary names that `P_xcfg.toLines` derives from
+    the occupancy and displacement parameters of the atoms.
+    """
+    if prop in ("occupancy", "Uiso", "Biso"):
+        return True
+    return len(prop) == 3 and prop[0] in "BU" and all(d in "123" for d in prop[1:])
 
 
 def _assign_auxiliaries(a, fields, auxiliaries, no_velocity):
